@@ -4,6 +4,8 @@ CONSTANTS
   SpecSet = {"s0", "s1"}
   MaxTouch = 0
   UserFiles = {"notes.txt"}
+  DneSet = {TRUE}
+  GuardedRemove = FALSE
 INVARIANT DirMatchesLast
 PROPERTY UserUntouched
 PROPERTY Idempotent
